@@ -37,6 +37,15 @@ CLAIMS = {
         "shapes in setup order with the stored reference lists, and reports arithmetic means and population std / mean.",
    note="Trusted: pyvc executor and NumPy models, lazy-sum calculus, np.delete as complement enumeration; reals for floats; complex shapes need a non-vanishing non-conjugated reference self-product.",
    design="6 (C02)", technique="contract-based deductive verification: AST->VC generation (pyvc) + z3 (NRA over lazy sums), loop invariants, native replay"),
+ "C16": dict(
+   text="Deductive proof, on selection lists of arbitrary (symbolic) length and arbitrary pole tables / grids, that every handler of the dialog "
+        "(key press/release, on_click_SSI, on_click_FDD, get_closest_pole, get_closest_freq, sort_selected_poles) equals a functional specification taken from "
+        "the property: the modifier gates every action; a pick selects the retained pole nearest in frequency at the nearest order and inserts frequency and order "
+        "under ONE sorting permutation; deselect-one removes the same position from both lists; deselect-nearest removes the entry nearest in frequency from both lists; "
+        "no other state changes. Because each operation's contract holds from every state, the history clause follows by induction over the action sequence. "
+        "__init__ hands over exactly the final lists and the three mpe_from_plot methods pass those lists (frequencies and per-mode orders) to the extraction routine.",
+   note="Trusted: pyvc executor, argsort/argmin/nanargmin contracts, list lemmas on permutations, Tk/matplotlib event delivery, plot_* abstracted (syntactic frame check), extraction routines havoc'ed at the hand-over (C11).",
+   design="6 (C16)", technique="contract-based deductive verification: per-operation contracts + representation invariant (pyvc AST->VC, z3), native replay against a list-of-pairs model"),
 }
 NOT_APPLICABLE = {
  "C07": "accuracy tolerance (2.5 % / 15 %) of a floating-point FFT/peak-picking/regression pipeline: no contract over exact reals can state or discharge it (DESIGN.md section 8); its scale-invariance clause is covered under C08",
